@@ -258,12 +258,23 @@ func c13Run(sc *C13Scenario) *c13Outcome {
 		out.skip = "unknown module"
 		return out
 	}
-	m, err := src.Build()
+	simrt.Load((&Tape{}).config())
+	var m, twin *ir.Module
+	var err error
+	if pan, msg := protect(func() {
+		simCall(func() {
+			m, err = src.Build()
+			if err == nil {
+				twin, _ = src.Build()
+			}
+		})
+	}); pan {
+		err = fmt.Errorf("panic while building the module: %s", msg)
+	}
 	if err != nil {
 		out.skip = "module rejected by the parser"
 		return out
 	}
-	twin, _ := src.Build()
 	// Reference: the same calls, sequentially, on the twin in the same start state.
 	maxCalls := 0
 	for _, t := range sc.Tasks {
@@ -274,30 +285,32 @@ func c13Run(sc *C13Scenario) *c13Outcome {
 	expected := make([][]string, len(sc.Tasks))
 	applies := make([][]bool, len(sc.Tasks))
 	if pan, msg := protect(func() {
-		applyStart(twin, sc.Start)
-		applyStart(m, sc.Start)
-		if sc.Start != "printed" {
-			// All tasks make the same calls on the same receiver; the lone
-			// sequential call sequence is that of task 0.
-			var ref []string
-			var app []bool
-			for _, c := range sc.Tasks[0] {
-				s, ok := doCall(twin, c)
-				ref = append(ref, s)
-				app = append(app, ok)
-			}
-			for i := range sc.Tasks {
-				expected[i], applies[i] = ref, app
-			}
-		} else {
-			for i, t := range sc.Tasks {
-				for _, c := range t {
+		simCall(func() {
+			applyStart(twin, sc.Start)
+			applyStart(m, sc.Start)
+			if sc.Start != "printed" {
+				// All tasks make the same calls on the same receiver; the lone
+				// sequential call sequence is that of task 0.
+				var ref []string
+				var app []bool
+				for _, c := range sc.Tasks[0] {
 					s, ok := doCall(twin, c)
-					expected[i] = append(expected[i], s)
-					applies[i] = append(applies[i], ok)
+					ref = append(ref, s)
+					app = append(app, ok)
+				}
+				for i := range sc.Tasks {
+					expected[i], applies[i] = ref, app
+				}
+			} else {
+				for i, t := range sc.Tasks {
+					for _, c := range t {
+						s, ok := doCall(twin, c)
+						expected[i] = append(expected[i], s)
+						applies[i] = append(applies[i], ok)
+					}
 				}
 			}
-		}
+		})
 	}); pan {
 		out.skip = "sequential print of the twin panics (not C13's business): " + clip(normDigits(msg), 80)
 		return out
